@@ -1532,9 +1532,9 @@ type lexres =
 
 val lcons : tok -> lexres -> lexres
 
-val skip_ignored : nat -> char list -> char list
-
 val head_is : (char -> bool) -> char list -> bool
+
+val skip_ignored : nat -> char list -> char list
 
 val lex : nat -> bool -> char list -> lexres
 
